@@ -133,7 +133,7 @@ func verifC01Known(src []byte, f *File, o verifOpts) bool {
 		if r, ok := n.(*Redirect); ok && r.Word != nil && len(r.Word.Parts) > 0 {
 			if l, ok := r.Word.Parts[0].(*Lit); ok && len(l.Value) > 0 && l.Value[0] == '!' {
 				switch r.Op {
-				case RdrOut, AppOut, RdrAll, AppAll:
+				case RdrOut, AppOut, RdrAll, AppAll, DplOut:
 					bang = true
 				}
 			}
@@ -141,6 +141,35 @@ func verifC01Known(src []byte, f *File, o verifOpts) bool {
 		return true
 	})
 	if verifKnown("C01-zsh-redir-bang", bang) {
+		return true
+	}
+	// zsh-only short parameter expansion forms
+	flagOrder, hashJoined, emptyParam := false, false, false
+	Walk(f, func(n Node) bool {
+		switch n := n.(type) {
+		case *ParamExp:
+			if n.Short && n.Length && (n.Split != 0 || n.GlobSubst != 0 || n.RcExpand != 0) {
+				flagOrder = true
+			}
+			if n.Param == nil && n.NestedParam == nil {
+				emptyParam = true
+			}
+		case *Word:
+			for i := 0; i+1 < len(n.Parts); i++ {
+				if pe, ok := n.Parts[i].(*ParamExp); ok && pe.Short && pe.Param != nil && pe.Param.Value == "#" {
+					hashJoined = true
+				}
+			}
+		}
+		return true
+	})
+	if verifKnown("C01-zsh-flag-order", flagOrder) {
+		return true
+	}
+	if verifKnown("C01-zsh-hash-joined", hashJoined) {
+		return true
+	}
+	if verifKnown("C01-zsh-empty-param", emptyParam) {
 		return true
 	}
 	return false
